@@ -1105,7 +1105,8 @@ func (c *Canonicalizer) writePhi(w *strings.Builder, i *ssa.Phi, instr ssa.Instr
 	type edge struct {
 		predID    string
 		predIndex int
-		value     string
+		val       ssa.Value
+		slot      int
 	}
 	edges := make([]edge, 0, len(i.Edges))
 	preds := i.Block().Preds
@@ -1127,14 +1128,7 @@ func (c *Canonicalizer) writePhi(w *strings.Builder, i *ssa.Phi, instr ssa.Instr
 			}
 		}
 
-		valStr := c.NormalizeOperand(val, instr)
-		if overrides, ok := c.virtualPhiConstants[i]; ok {
-			if ov, ok := overrides[j]; ok {
-				valStr = ov
-			}
-		}
-
-		edges = append(edges, edge{predID: predID, predIndex: idx, value: valStr})
+		edges = append(edges, edge{predID: predID, predIndex: idx, val: val, slot: j})
 	}
 
 	// Deterministic sorting logic for Phi edges
@@ -1147,8 +1141,18 @@ func (c *Canonicalizer) writePhi(w *strings.Builder, i *ssa.Phi, instr ssa.Instr
 		return edges[a].predID < edges[b].predID
 	})
 
+	// Name the operands only now, in canonical predecessor order: an operand that has no
+	// register yet (a value defined later, e.g. along a back edge) gets the next free one,
+	// so naming them in SSA edge order would make the numbering depend on how the source
+	// happened to order the branches.
 	for _, e := range edges {
-		w.WriteString(fmt.Sprintf(" [%s: %s]", e.predID, e.value))
+		valStr := c.NormalizeOperand(e.val, instr)
+		if overrides, ok := c.virtualPhiConstants[i]; ok {
+			if ov, ok := overrides[e.slot]; ok {
+				valStr = ov
+			}
+		}
+		w.WriteString(fmt.Sprintf(" [%s: %s]", e.predID, valStr))
 	}
 }
 
